@@ -33,6 +33,11 @@ fn quad8<'a>(p: &[Var<'a>], d: &[&[f64]]) -> Var<'a> {
 fn saddle<'a>(p: &[Var<'a>], _d: &[&[f64]]) -> Var<'a> {
     p[0] * p[0] - p[1] * p[1] * 0.25 + p[0] * p[1] * 0.5
 }
+/// non-convex with a steep concave direction: with the larger steps the iterates run away and the
+/// objective overflows (|θ| > 1e154) a hundred steps before the iterates do
+fn steep_saddle<'a>(p: &[Var<'a>], _d: &[&[f64]]) -> Var<'a> {
+    p[0] * p[0] - p[1] * p[1] * 8.0
+}
 fn rosenbrock<'a>(p: &[Var<'a>], d: &[&[f64]]) -> Var<'a> {
     (p[0] * -1.0 + d[0][0]).powi(2) + (p[1] - p[0].powi(2)).powi(2) * d[0][1]
 }
@@ -64,6 +69,10 @@ fn problems() -> Vec<Problem> {
     vec![
         Problem { name: "quad1(a=2,c=0)", f: quad1, data: vec![vec![2.0, 0.0]], starts: vec![vec![1.0], vec![-3.0]], grad: |p, d| vec![2.0 * d[0][0] * (p[0] - d[0][1])], max_step: 0.5 },
         Problem { name: "quad1(a=.5,c=3)", f: quad1, data: vec![vec![0.5, 3.0]], starts: vec![vec![0.0], vec![10.0]], grad: |p, d| vec![2.0 * d[0][0] * (p[0] - d[0][1])], max_step: 0.5 },
+        // convex, but the larger steps overshoot (factor −19 or −9 per step): a runaway run whose
+        // objective value overflows long before the iterates do; the k-th iterate is still defined
+        Problem { name: "quad1(a=20,c=0)", f: quad1, data: vec![vec![20.0, 0.0]], starts: vec![vec![1.0], vec![-0.125]], grad: |p, d| vec![2.0 * d[0][0] * (p[0] - d[0][1])], max_step: 0.5 },
+        Problem { name: "steep-saddle", f: steep_saddle, data: vec![vec![0.0]], starts: vec![vec![1.0, 0.5], vec![0.25, -1.0]], grad: |p, _| vec![2.0 * p[0], -16.0 * p[1]], max_step: 0.5 },
         Problem { name: "quad2", f: quad2, data: vec![vec![0.0]], starts: vec![vec![1.0, 1.0], vec![-2.0, 0.5]], grad: |p, _| vec![2.0 * p[0] + p[1] - 2.0, 6.0 * p[1] + p[0]], max_step: 0.25 },
         Problem { name: "quad3", f: quad3, data: vec![vec![0.0]], starts: vec![vec![1.0, -1.0, 2.0], vec![0.0, 0.0, 0.0]], grad: |p, _| vec![4.0 * p[0] + p[2], 2.0 * p[1] - 0.5 * p[2] + 1.0, p[2] + p[0] - 0.5 * p[1] - 3.0], max_step: 0.25 },
         Problem {
@@ -294,6 +303,9 @@ fn first_order(run: &Run) {
                     } else {
                         run.outcome(&(site, "ok", k.min(40)));
                         run.regime(site);
+                        if want.iter().any(|x| x.abs() > 1e155) {
+                            run.regime("runaway: objective overflowed, iterates finite");
+                        }
                     }
                 }
                 Err(e) => run.violate(&format!("{}/panic", site), || format!("{} with budget {}: {}", desc, k, e)),
@@ -637,11 +649,11 @@ fn dd_solve(a: &[DD], b: &[DD], n: usize) -> Option<Vec<f64>> {
 }
 
 pub fn run(run: &Run) {
-    run.rule("Adam and SGD (plain, momentum, Nesterov): 10 objectives (convex and indefinite quadratics in 1..3 and 8 dimensions, Rosenbrock, least-squares losses built from exp, sin, powi and division) × 2 starts × step sizes {1e-4,1e-2,.25,.5} (capped per objective) × β1,β2 in {.5,.9,.999}² / momentum {0,.5,.9,.99} × Nesterov on/off × every budget k in 0..=32 and every 8th to 200 (0..=64 and every 8th to 2000 thorough), each compared with the published recurrence stepped by the harness; LM: linear (constant, line, quadratic, cubic), exponential and logistic curve fits with fixed noise patterns, 5/12/40/200 points, good and poor starts, every budget 0..=60 (200) and 200; every (configuration, budget) pair is a distinct non-trivial case");
+    run.rule("Adam and SGD (plain, momentum, Nesterov): 12 objectives (convex and indefinite quadratics in 1..3 and 8 dimensions, two of them running away under the larger steps so that the objective overflows while the iterates are still finite, Rosenbrock, least-squares losses built from exp, sin, powi and division) × 2 starts × step sizes {1e-4,1e-2,.25,.5} (capped per objective) × β1,β2 in {.5,.9,.999}² / momentum {0,.5,.9,.99} × Nesterov on/off × every budget k in 0..=32 and every 8th to 200 (0..=64 and every 8th to 2000 thorough), each compared with the published recurrence stepped by the harness; LM: linear (constant, line, quadratic, cubic), exponential and logistic curve fits with fixed noise patterns, 5/12/40/200 points, good and poor starts, every budget 0..=60 (200) and 200; every (configuration, budget) pair is a distinct non-trivial case");
     let _ = Vector::new(vec![0.0]);
     first_order(run);
     lm_suite(run);
-    for r in ["Adam", "SGD-plain", "SGD-momentum", "SGD-nesterov", "LM-descent", "LM-covariance-ok", "LM-linear-solved"] {
+    for r in ["Adam", "SGD-plain", "SGD-momentum", "SGD-nesterov", "LM-descent", "LM-covariance-ok", "LM-linear-solved", "runaway: objective overflowed, iterates finite"] {
         run.require_regime(r);
     }
     run.assume("the reference recurrence takes its gradients from the same reverse-mode tape API (so the comparison isolates the update rule); those gradients are checked against analytic ones at 1e-10");
